@@ -252,3 +252,43 @@ func (s *sinkInfo) computeReach() {
 		}
 	}
 }
+
+// reachClosure: the set of repository functions from which a call site satisfying direct is reachable through
+// statically resolved calls, bound local closures and nested literals (backward fixpoint).
+func (c *Ctx) reachClosure(direct func(cs *CallSite) bool) map[*FuncInfo]bool {
+	reach := map[*FuncInfo]bool{}
+	for _, f := range c.Funcs {
+		for _, cs := range f.calls {
+			if direct(cs) {
+				reach[f] = true
+				break
+			}
+		}
+	}
+	for changed := true; changed; {
+		changed = false
+		for _, f := range c.Funcs {
+			if reach[f] {
+				continue
+			}
+			for _, cs := range f.calls {
+				if cs.Target != nil && reach[cs.Target] {
+					reach[f] = true
+					changed = true
+					break
+				}
+			}
+			if reach[f] {
+				continue
+			}
+			for _, l := range c.litsIn(f) {
+				if reach[l] {
+					reach[f] = true
+					changed = true
+					break
+				}
+			}
+		}
+	}
+	return reach
+}
